@@ -110,6 +110,78 @@ def handlers_in(fn: ast.AST) -> List[str]:
 
 # ----------------------------------------------------------------------------------------------
 
+def _ends_function(stmts) -> bool:
+    """every path through the block leaves the function (return / raise)"""
+    if not stmts:
+        return False
+    st = stmts[-1]
+    if isinstance(st, (ast.Return, ast.Raise)):
+        return True
+    if isinstance(st, ast.If):
+        return bool(st.orelse) and _ends_function(st.body) and _ends_function(st.orelse)
+    return False
+
+
+def hoist_try_else(stmts: List[ast.stmt]) -> List[ast.stmt]:
+    """`try: A  except E: H  else: B` -> `try: A  except E: H` followed by `B`, when every handler leaves the
+    function and there is no `finally`: B runs exactly when A finished without an exception, which is then the
+    only way to reach the statement after the try; in both forms an exception raised by B is not handled."""
+    out: List[ast.stmt] = []
+    for st in stmts:
+        if (isinstance(st, ast.Try) and st.orelse and not st.finalbody and st.handlers
+                and all(_ends_function(h.body) for h in st.handlers)):
+            out.append(ast.Try(body=st.body, handlers=st.handlers, orelse=[], finalbody=[]))
+            out += hoist_try_else(st.orelse)
+        else:
+            out.append(st)
+    return out
+
+
+def _stores(fn: ast.FunctionDef, name: str) -> int:
+    """how many places of `fn` (nested scopes included) can bind `name`"""
+    n = 0
+    for node in ast.walk(fn):
+        if isinstance(node, ast.Name) and node.id == name and isinstance(node.ctx, (ast.Store, ast.Del)):
+            n += 1
+        elif isinstance(node, ast.arg) and node.arg == name:
+            n += 1
+        elif isinstance(node, ast.ExceptHandler) and node.name == name:
+            n += 1
+        elif isinstance(node, (ast.Global, ast.Nonlocal)) and name in node.names:
+            n += 2
+        elif isinstance(node, (ast.FunctionDef, ast.AsyncFunctionDef, ast.ClassDef)) and node is not fn and node.name == name:
+            n += 1
+        elif isinstance(node, ast.alias) and (node.asname or node.name.split(".")[0]) == name:
+            n += 1
+    return n
+
+
+def resolve_local(fn: ast.FunctionDef, e: ast.expr, user: ast.stmt) -> ast.expr:
+    """`e` (read inside the top-level statement `user` of `fn`) with a hoisted local followed to its definition:
+    a name bound exactly ONCE in the whole function, by a plain top-level `n = <name>.<attr>` that precedes `user`,
+    where <name> is itself bound exactly once, at top level and earlier, and the function stores to no attribute
+    `<attr>`.  Then the local denotes, at every use after its definition, what the expression denoted there.
+    Anything else is returned unchanged (and then fails the caller's shape test)."""
+    if not isinstance(e, ast.Name):
+        return e
+    top = list(fn.body)
+    if user not in top or _stores(fn, e.id) != 1:
+        return e
+    for i, st in enumerate(top[:top.index(user)]):
+        if isinstance(st, ast.Assign) and len(st.targets) == 1 and is_name(st.targets[0], e.id):
+            v = st.value
+            if not (isinstance(v, ast.Attribute) and isinstance(v.value, ast.Name) and _stores(fn, v.value.id) == 1):
+                return e
+            base_bound_before = any(isinstance(n, ast.Name) and n.id == v.value.id and isinstance(n.ctx, ast.Store)
+                                    for prev in top[:i] if isinstance(prev, (ast.Assign, ast.AnnAssign)) for n in ast.walk(prev)) \
+                or any(a.arg == v.value.id for a in fn.args.args)
+            attr_stored = any(isinstance(n, ast.Attribute) and n.attr == v.attr and isinstance(n.ctx, (ast.Store, ast.Del)) for n in ast.walk(fn))
+            if base_bound_before and not attr_stored:
+                return v
+            return e
+    return e
+
+
 def flatten_elif_returns(stmts: List[ast.stmt]) -> List[ast.stmt]:
     """`if a: return x elif b: return y [else: rest]` -> `if a: return x; if b: return y; rest` (the same control
     flow: every taken branch leaves the function)"""
@@ -500,8 +572,9 @@ def tr_string_fns(ev: ast.Module, ct: ast.Module) -> str:
     # function_matches: re2.search(pattern, text) under `except re2.error` -> CELEvalError; BoolType(m is not None)
     fm = find_func(ev.body, "function_matches")
     ps = [a.arg for a in fm.args.args]
-    b = body_of(fm)
-    need(len(b) == 2 and isinstance(b[0], ast.Try) and isinstance(b[1], ast.Return), "function_matches: try then return")
+    b = hoist_try_else(body_of(fm))       # try/except/else with returning handlers = try/except then the else body
+    need(len(b) == 2 and isinstance(b[0], ast.Try) and not b[0].orelse and not b[0].finalbody and isinstance(b[1], ast.Return),
+         "function_matches: try then return")
     tb = b[0].body
     need(len(tb) == 1 and isinstance(tb[0], ast.Assign) and isinstance(tb[0].value, ast.Call), "function_matches: m = search(..)")
     call = tb[0].value
@@ -560,9 +633,11 @@ def tr_macros(ev: ast.Module) -> str:
     need(names is not None, "member_dot_arg: macro name set")
     out.append("def macroNames : List String := " + lean_list([lean_str(n) for n in names]))
     rows = []
+    top_of = {id(n): top for top in mda.body for n in ast.walk(top)}      # the top-level statement a node sits in
     for node in ast.walk(mda):
-        if isinstance(node, ast.If) and isinstance(node.test, ast.Compare) and isinstance(node.test.ops[0], ast.Eq) \
-                and ast.unparse(node.test.left) == "method_name_token.value" and isinstance(node.test.comparators[0], ast.Constant):
+        if isinstance(node, ast.If) and isinstance(node.test, ast.Compare) and len(node.test.ops) == 1 and isinstance(node.test.ops[0], ast.Eq) \
+                and ast.unparse(resolve_local(mda, node.test.left, top_of.get(id(node)))) == "method_name_token.value" \
+                and isinstance(node.test.comparators[0], ast.Constant):
             nm = node.test.comparators[0].value
             if nm not in ("map", "filter", "all", "exists", "exists_one"):
                 continue
